@@ -44,9 +44,11 @@ func verifAuthOptRoundTrip(authOpt *slayers.EndToEndOption, spi uint32, algo uin
 // host: only the key binds a packet authenticator to the host pair, so a cached key for another local host address
 // must never be reused. The daemon call itself (drkey.go FetchHostASKey) is assumed to return the key it was asked for.
 //@ func (*Fetcher).FetchHostASKey
-//@   noframe
 //@   nonnil fetcherMtrcs.Load
+//@   modifies f.haks
+//@   allocates
 //@   requires f != nil && f.haks != nil
+//@   ensures cache: refof(f.haks) == old(refof(f.haks))
 //@   ensures matches: result1 == nil ==> result0.ProtoId == meta.ProtoId && result0.SrcIA == meta.SrcIA && result0.DstIA == meta.DstIA && result0.SrcHost == meta.SrcHost
 //@ func FetchHostASKey
 //@   trusted
@@ -65,3 +67,9 @@ func verifAuthOptRoundTrip(authOpt *slayers.EndToEndOption, spi uint32, algo uin
 //@   noframe
 //@   requires c != nil && c.raw != nil
 //@   noerror scionLayer.Path.SerializeTo
+
+// VerifReady is a ghost accessor (compiled only with the tag "verif"): it lets contracts in other packages state the
+// Fetcher's representation invariant (the key cache exists; NewFetcher establishes it).
+// @ func (*Fetcher).VerifReady
+// @   inline
+func (f *Fetcher) VerifReady() bool { return f != nil && f.haks != nil }
